@@ -57,8 +57,36 @@ Definition c14_run (c : nat * bytes * list mop) : obs :=
   | Err e => exn_obs e
   end.
 
-(* the specification root, from the final mapping alone *)
+(* The specification root, from the final mapping alone.  [merkle_sparse] recomputes the
+   default sub-roots at every empty subtree; [merkle_sparse_fast] looks them up in a table
+   computed once (proved equal in Smt_proofs). *)
+Fixpoint default_roots (n : nat) (d : bytes) : list bytes :=   (* index i = default_root i d, i <= n *)
+  match n with
+  | O => [K d]
+  | S n' => let l := default_roots n' d in
+            let h := last l [] in l ++ [K (h ++ h)]
+  end.
+
+Fixpoint merkle_sparse_fast (tbl : list bytes) (n : nat) (d : bytes) (bs : list (bits * bytes)) : bytes :=
+  match bs with
+  | [] => nth n tbl []
+  | _ =>
+      match n with
+      | O => K (match bs with (_, v) :: _ => v | [] => d end)
+      | S n' =>
+          let '(l, r) := split_bindings bs in
+          K (merkle_sparse_fast tbl n' d l ++ merkle_sparse_fast tbl n' d r)
+      end
+  end.
+
 Definition c14_spec_root (c : nat * bytes * list (bytes * bytes)) : obs :=
+  let '(ks, d, bindings) := c in
+  let n := (8 * ks)%nat in
+  OB (merkle_sparse_fast (default_roots n d) n d
+        (map (fun e : bytes * bytes => (encode_to_bin (fst e), snd e)) bindings)).
+
+(* the slow, directly specified version on the same input (used on small depths) *)
+Definition c14_spec_root_slow (c : nat * bytes * list (bytes * bytes)) : obs :=
   let '(ks, d, bindings) := c in
   OB (merkle_sparse K (8 * ks) d (map (fun e : bytes * bytes => (encode_to_bin (fst e), snd e)) bindings)).
 
